@@ -35,7 +35,7 @@ def cases(tier, seed):
     rng = np.random.default_rng(seed + 1111)
     cs = []
     # coll sequences
-    nseq = 30 if tier == 'quick' else 400
+    nseq = 30 if tier == 'quick' else 3000
     for i in range(nseq):
         seq = []
         qt = QT[int(rng.integers(0, 4))]
@@ -73,17 +73,35 @@ def cases(tier, seed):
                     continue
                 for iorder in (2, 4):
                     nd.append(dict(kind='space', periodic=periodic, nf=nf, nc=nc, iorder=iorder, rorder=2, nested=bool(rng.random() < 0.5), dim=dim, _cost=nf**dim))
+    # sizes that are not powers of two (coarsening by 2 only needs nf = 2 nc resp. 2 nc + 1)
+    gen = []
+    for periodic in (True, False):
+        for nc in (3, 5, 6, 7, 9, 10, 11, 12, 13, 14, 17, 20, 24, 25, 31, 33, 40, 48, 50):
+            nf = 2 * nc if periodic else 2 * nc + 1
+            for iorder in (2, 4, 6, 8):
+                for nested in (True, False):
+                    for rorder in ((2, iorder, 0) if nested else (2, iorder)):
+                        gen.append(dict(kind='space', periodic=periodic, nf=nf, nc=nc, iorder=iorder, rorder=rorder, nested=nested, dim=1, _cost=nf))
+    if tier == 'quick':
+        gen = [gen[i] for i in rng.choice(len(gen), 40, replace=False)]
+    sp += gen
     if tier == 'quick':
         sp = [sp[i] for i in rng.choice(len(sp), 120, replace=False)]
         nd = [nd[i] for i in rng.choice(len(nd), 10, replace=False)]
     cs += sp + nd
+    for i in range(24 if tier == 'quick' else 1500):
+        dim = int(rng.choice([2, 2, 3]))
+        periodic = False  # the periodic branch of interpolation_matrix_1d assumes the unit period and n-D problems share one dx, so rectangular periodic grids cannot be described
+        ncs = [int(rng.integers(3, 9 if dim == 3 else 13)) for _ in range(dim)]
+        io = int(rng.choice([2, 4, 6]))
+        cs.append(dict(kind='rect', periodic=periodic, ncs=ncs, iorder=io, rorder=int(rng.choice([2, io])), nested=bool(rng.random() < 0.5), seed=int(rng.integers(0, 2**31)), _cost=float(np.prod(ncs)) * 2))
     for k in range(2, 8):
         for ratio in (2, 4):
             if 2**k // ratio >= 2:
                 cs.append(dict(kind='fft', nf=2**k, nc=2**k // ratio, seed=int(rng.integers(0, 2**31)), _cost=1))
     for k in (2, 3, 4):
         cs.append(dict(kind='fft2d', nf=2**k, nc=2 ** (k - 1), seed=int(rng.integers(0, 2**31)), _cost=2))
-    for i in range(6 if tier == 'quick' else 40):
+    for i in range(6 if tier == 'quick' else 400):
         cs.append(dict(kind='nocoarse', n=int(rng.integers(1, 9)), seed=int(rng.integers(0, 2**31)), _cost=1))
         cs.append(dict(kind='particles', n=int(rng.integers(1, 5)), seed=int(rng.integers(0, 2**31)), _cost=1))
     return cs
@@ -196,6 +214,17 @@ def make_probs(case):
     nvf = nf if dim == 1 else (nf,) * dim
     nvc = nc if dim == 1 else (nc,) * dim
     freq = (2 if dim == 1 else (2,) * dim)
+    def pow2(n):
+        m = n if periodic else n + 1
+        return m & (m - 1) == 0
+
+    if dim == 1 and not (pow2(nf) and pow2(nc)):
+        # the shipped finite-difference problems insist on 2^p (-1) points; the transfer class itself only reads nvars, dx and
+        # init, so general sizes are driven with a plain grid description
+        from types import SimpleNamespace
+
+        mk = lambda n: SimpleNamespace(nvars=n, dx=(1.0 / n if periodic else 1.0 / (n + 1)), init=(n, None, np.dtype('float64')))  # noqa: E731
+        return mk(nf), mk(nc)
     Pf = heatNd_unforced(nvars=nvf, nu=0.1, freq=freq, bc=bc)
     Pc = heatNd_unforced(nvars=nvc, nu=0.1, freq=freq, bc=bc)
     return Pf, Pc
@@ -301,6 +330,69 @@ def run_space(case, r):
             r.check(e <= 1e-11 * max(1.0, float(np.max(np.sum(np.abs(P), axis=1)))), 'dirichlet-polynomial-reproduced', f'{tag}: boundary-vanishing polynomial of degree {deg} not reproduced ({e:.3e})')
     r.observe('space', f"{'per' if periodic else 'dir'}/i{p}/nested{case['nested']}/dim{dim}")
     r.sample = dict(case={k: v for k, v in case.items() if not k.startswith('_')}, err=err, ties=ties)
+
+
+def run_rect(case, r):
+    """n-D grids with different point counts per direction: the operator must act direction by direction on C-ordered data"""
+    from types import SimpleNamespace
+
+    from pySDC.implementations.datatype_classes.mesh import imex_mesh, mesh
+    from pySDC.implementations.transfer_classes.TransferMesh import mesh_to_mesh
+
+    periodic, ncs, p, ro = case['periodic'], case['ncs'], case['iorder'], case['rorder']
+    nfs = [2 * n if periodic else 2 * n + 1 for n in ncs]
+    dim = len(ncs)
+    tag = f"rect/{'per' if periodic else 'dir'}/{nfs}->{ncs}/i{p}/r{ro}/nested{case['nested']}"
+    r.key = tag
+    if any((not periodic and max(p, ro) > n + 2) or (periodic and max(p, ro) >= n) for n in ncs):
+        r.count('space_order_exceeds_grid')
+        r.check(True, 'noop', '')
+        return
+    dxf = 1.0 / 64
+    Pf = SimpleNamespace(nvars=tuple(nfs), dx=dxf, init=(tuple(nfs), None, np.dtype('float64')))
+    Pc = SimpleNamespace(nvars=tuple(ncs), dx=2 * dxf, init=(tuple(ncs), None, np.dtype('float64')))
+    try:
+        T = mesh_to_mesh(Pf, Pc, dict(iorder=p, rorder=ro, periodic=periodic, equidist_nested=case['nested']))
+    except Exception as e:  # noqa
+        r.check(False, 'space-constructs', f'{tag}: {type(e).__name__}: {e}')
+        return
+    P1, R1 = [], []
+    for nf, nc in zip(nfs, ncs):
+        P1.append(np.array([[float(x) for x in expected_P_row(i, nf, nc, p, periodic)[0]] for i in range(nf)]))
+        R1.append(0.5 * np.array([[float(x) for x in expected_P_row(i, nf, nc, ro, periodic)[0]] for i in range(nf)]).T)
+
+    def apply(mats, data):
+        out = data
+        for ax, Mx in enumerate(mats):
+            out = np.moveaxis(np.tensordot(Mx, out, axes=(1, ax)), 0, ax)
+        return out
+
+    rng = np.random.default_rng(case['seed'])
+    for dt_cls in (mesh, imex_mesh):
+        Gd, Fd = dt_cls(Pc.init), dt_cls(Pf.init)
+        if dt_cls is mesh:
+            Gd[:] = rng.standard_normal(np.asarray(Gd).shape)
+            Fd[:] = rng.standard_normal(np.asarray(Fd).shape)
+            cG, cF = [np.asarray(Gd).copy()], [np.asarray(Fd).copy()]
+        else:
+            for part in (Gd.impl, Gd.expl, Fd.impl, Fd.expl):
+                part[:] = rng.standard_normal(np.asarray(part).shape)
+            cG, cF = [np.asarray(Gd.impl).copy(), np.asarray(Gd.expl).copy()], [np.asarray(Fd.impl).copy(), np.asarray(Fd.expl).copy()]
+        up, dn = T.prolong(Gd), T.restrict(Fd)
+        r.check(type(up) is dt_cls and type(dn) is dt_cls, 'transfer-preserves-type', f'{tag}: {dt_cls.__name__} became {type(up).__name__}/{type(dn).__name__}')
+        ups = [np.asarray(up)] if dt_cls is mesh else [np.asarray(up.impl), np.asarray(up.expl)]
+        dns = [np.asarray(dn)] if dt_cls is mesh else [np.asarray(dn.impl), np.asarray(dn.expl)]
+        for cg, cu in zip(cG, ups):
+            exp = apply(P1, cg)
+            e = float(np.max(np.abs(cu - exp))) if cu.shape == exp.shape else np.inf
+            r.check(e <= 1e-11 * max(1.0, float(np.max(np.abs(exp)))), 'tensor-product-per-direction', f'{tag}: prolong({dt_cls.__name__}) differs from the 1-D interpolation applied direction by direction by {e:.3e}')
+        for cf, cd in zip(cF, dns):
+            exp = apply(R1, cf)
+            e = float(np.max(np.abs(cd - exp))) if cd.shape == exp.shape else np.inf
+            r.check(e <= 1e-11 * max(1.0, float(np.max(np.abs(exp)))), 'tensor-product-per-direction', f'{tag}: restrict({dt_cls.__name__}) differs from the 1-D restriction applied direction by direction by {e:.3e}')
+    r.nontrivial = len(set(ncs)) > 1
+    r.observe('rect', f"{'per' if periodic else 'dir'}/dim{dim}/i{p}")
+    r.sample = dict(case={k: v for k, v in case.items() if not k.startswith('_')})
 
 
 def run_fft(case, r):
@@ -449,7 +541,7 @@ def run_particles(case, r):
 
 def run_case(case):
     r = Result(case)
-    dict(coll=run_coll, space=run_space, fft=run_fft, fft2d=run_fft2d, nocoarse=run_nocoarse, particles=run_particles)[case['kind']](case, r)
+    dict(coll=run_coll, space=run_space, rect=run_rect, fft=run_fft, fft2d=run_fft2d, nocoarse=run_nocoarse, particles=run_particles)[case['kind']](case, r)
     r.count('kind:' + case['kind'])
     return r
 
@@ -458,7 +550,7 @@ def finalize(agg):
     out = []
     c = agg['counters']
     for k in ('oracle:Pcoll-polynomial-exact', 'oracle:Rcoll-Pcoll-identity', 'oracle:Pspace-nearest-lagrange', 'oracle:Rspace-is-half-PT', 'oracle:fft-band-limited-exact',
-              'oracle:transfer-preserves-type', 'oracle:dirichlet-polynomial-reproduced', 'oracle:prolong-is-Pspace'):
+              'oracle:transfer-preserves-type', 'oracle:dirichlet-polynomial-reproduced', 'oracle:prolong-is-Pspace', 'oracle:tensor-product-per-direction'):
         if c.get(k, 0) == 0:
             out.append(f'monitor {k} never evaluated')
     return out
